@@ -7,6 +7,7 @@ import (
 )
 
 func deepEqTerm(t types.Type, x, y value, depth int) *term {
+	x, y = unlazy(x), unlazy(y)
 	if depth > 64 {
 		panic(pathAbort{"unsupported", "reflect.DeepEqual: recursion too deep (cyclic value?)"})
 	}
